@@ -414,7 +414,7 @@ def run(ctx):
             if m in "WR" and len(segs) > 1:
                 tie_modifier(m, ln, segs[1:], wr_jobs)
             d = kv(out)
-            for k_ in ("coll", "coll_tree", "prepop", "excluded", "marked", "repaired", "tree_pack", "unsorted", "present_before"):
+            for k_ in ("coll", "coll_tree", "prepop", "excluded", "marked", "repaired", "tree_pack", "unsorted", "present_before", "needed", "needed_ok"):
                 if k_ in d and d[k_].isdigit():
                     hist["%s_%s" % (m, k_)] = hist.get("%s_%s" % (m, k_), 0) + int(d[k_])
             if m == "C" and int(d.get("present_before", 0)) + int(d.get("coll", 0)) + int(d.get("coll_tree", 0)) > 0: nontriv.add(ln)
